@@ -86,10 +86,20 @@ def one(ctx, w, cfg, use_strace):
         except OSError:
             probs.append("twin of %r vanished" % r)
             continue
-        if tdata != data or stat.S_IMODE(st.st_mode) != mode:
+        own_reject = False
+        if r.endswith(b".rej") and r not in named:
+            # <file>.rej is the push's own output name when a hunk of <file> is rejected: a stale one is then overwritten
+            # (in place - the one output the tool does not replace by a fresh inode; DESIGN 12.4).  Only then: the push
+            # failed and what is there now is a reject.  A stray <file>.rej is otherwise a file no patch names.
+            try:
+                now = open(os.path.join(d.encode(), r), "rb").read()
+            except OSError:
+                now = None
+            own_reject = rc == 1 and now is not None and now != data and b"\n--- " in b"\n" + now and b"\n@@ " in now
+        if (tdata != data or stat.S_IMODE(st.st_mode) != mode) and not own_reject:
             probs.append("the hard-linked copy of %r changed (%d -> %d bytes, mode %o -> %o): the file was edited in place" % (
                 r, len(data), len(tdata), mode, stat.S_IMODE(st.st_mode)))
-        if r not in named and not r.endswith(b".rej"):
+        if r not in named and not own_reject:
             p = os.path.join(d.encode(), r)
             try:
                 s2 = os.lstat(p)
@@ -135,6 +145,12 @@ def run(ctx):
         for k in list(w["files"]):
             if rng.random() < 0.35:
                 w["files"][k] = (w["files"][k][0], rng.choice([0o444, 0o555, 0o400]))
+        # stray rejects next to tracked files (left by an earlier push, or of another series): not this push's business
+        # unless it rejects a hunk of that very file (seeded C15-h: "stale" rejects were cleaned away on saving)
+        for k in list(w["files"]):
+            if not k.endswith(b".rej") and rng.random() < 0.3:
+                w["files"][k + b".rej"] = (b"stale reject of an earlier push\n", 0o644)
+                hist["stray .rej next to a tracked file"] += 1
         w["files"][b"bystander"] = (b"untouched\n", 0o644)
         w["files"][b"dir/bystander.txt"] = (b"untouched too\n", 0o600)
         cfg = l3common.rand_cfg(rng, threads=(1, 1, 2, 4))
